@@ -1,7 +1,7 @@
 (* C15 — outbound confidentiality (packet path here; stream path in the second half). *)
 From Coq Require Import List NArith ZArith Bool.
 Import ListNotations.
-From VF Require Import Base Label Wire Wire_proofs.
+From VF Require Import Base Label Wire Wire_proofs Stream Stream_proofs.
 
 (* with a keyring and outgoing verification on, whatever rawSendMsgPacket hands to the (label
    wrapping) transport is: the cleartext label header, the version byte, the nonce, and the AEAD
@@ -14,3 +14,14 @@ Theorem C15_packet_sealed : forall seal comp c pm msg nonce,
         seal (primary c) nonce (if N.eqb (encvsn c) 0 then pkcs7_pad body else body) (plabel c)).
 Proof. exact packet_sealed. Qed.
 Print Assumptions C15_packet_sealed.
+
+(* streams (user messages, both directions of push/pull, TCP pings and their acks, error replies all
+   go through rawSendMsgStream): encryptMsg || length || version || nonce || sealing under the
+   primary key, with  encryptMsg || length || label  as associated data *)
+Theorem C15_stream_sealed : forall seal comp c label payload nonce,
+  enc_on c = true -> verify_out c = true ->
+  exists s1, stream_frame seal comp c label payload nonce =
+    let hdr := t_encrypt :: be32 (encrypted_length (encvsn c) (blen s1)) in
+    hdr ++ encvsn c :: nonce ++ seal (primary c) nonce (if N.eqb (encvsn c) 0 then pkcs7_pad s1 else s1) (hdr ++ label).
+Proof. exact stream_sealed. Qed.
+Print Assumptions C15_stream_sealed.
